@@ -12,6 +12,7 @@ import Shm.Lemmas.ModesLemmas
 import Shm.Crypto.More
 import Shm.Lemmas.DesLemmas
 import Shm.Lemmas.RsaPadLemmas
+import Shm.Crypto.Ecc
 namespace Shm.C10
 open Shm.Crypto
 
@@ -118,5 +119,25 @@ theorem C10_oaep_roundtrip (hash mgfHash : Bytes → Bytes) (hLen gLen : Nat) (h
     (m seed : Bytes) (k : Nat) (hseed : seed.length = (hash []).length) (hfit : m.length + 2 * (hash []).length + 2 ≤ k) :
     Shm.Crypto.emeOaepDecode hash mgfHash (Shm.Crypto.emeOaepEncode hash mgfHash m seed k) = some m :=
   Shm.Crypto.oaep_roundtrip hash mgfHash m seed k (fun s n => Shm.Crypto.mgf1_length mgfHash gLen hg0 hg s n) hseed hfit
+
+/-- **RSASSA-PSS encoding round trip** (RFC 8017 9.1): the reference verifier - which the monitor applies to `s^e mod n` of every PSS signature the token makes - accepts every
+    encoding the EMSA-PSS encoder produces, for every message hash, every salt, every modulus size in which they fit (`emBits` need not be a multiple of 8: the leftmost
+    `8·emLen - emBits` bits are cleared by the encoder and ignored by the verifier), every hash with a fixed non-empty output length -/
+theorem C10_pss_roundtrip (hash mgfHash : Bytes → Bytes) (hLen gLen : Nat) (hg0 : 0 < gLen) (hg : ∀ x, (mgfHash x).length = gLen) (hh : ∀ x, (hash x).length = hLen)
+    (mHash salt : Bytes) (emBits : Nat) (hm : mHash.length = hLen) (hfit : hLen + salt.length + 2 ≤ (emBits + 7) / 8) :
+    Shm.Crypto.emsaPssVerify hash mgfHash mHash (Shm.Crypto.emsaPssEncode hash mgfHash mHash salt emBits) emBits salt.length = true :=
+  Shm.Crypto.pss_roundtrip hash mgfHash mHash salt emBits hLen hh (fun s n => Shm.Crypto.mgf1_length mgfHash gLen hg0 hg s n) hm hfit
+
+/-- non-vacuity: a toy hash of two bytes (fixed length, non-empty), a 3-byte salt, a modulus of 61 bits -/
+example : Shm.Crypto.emsaPssVerify (fun x => [UInt8.ofNat x.length, x.foldl (· ^^^ ·) 0x5a]) (fun x => [UInt8.ofNat x.length, x.foldl (· + ·) 7])
+    [0x11, 0x22] (Shm.Crypto.emsaPssEncode (fun x => [UInt8.ofNat x.length, x.foldl (· ^^^ ·) 0x5a]) (fun x => [UInt8.ofNat x.length, x.foldl (· + ·) 7]) [0x11, 0x22] [9, 8, 7] 61) 61 3 = true := by
+  decide +kernel
+
+/-- **ECDSA verification, what is never accepted** (the reference the monitor judges the token's verifications and signatures with, on all eight named curves): a signature whose
+    length is not twice the octet length of the group ORDER, a component r or s outside [1, n-1], a public point that is not on the curve -/
+theorem C10_ecdsa_reference_guards (c : Shm.Crypto.Curve) (q : Nat × Nat) (hash sig : Bytes) (h : c.ecdsaVerify q hash sig = true) :
+    sig.length = 2 * c.orderLen ∧ 0 < Shm.Crypto.bytesToNat (sig.take c.orderLen) ∧ Shm.Crypto.bytesToNat (sig.take c.orderLen) < c.n ∧
+    0 < Shm.Crypto.bytesToNat (sig.drop c.orderLen) ∧ Shm.Crypto.bytesToNat (sig.drop c.orderLen) < c.n ∧ c.onCurve (some q) = true :=
+  Shm.Crypto.ecdsaVerify_guards c q hash sig h
 
 end Shm.C10
